@@ -8,7 +8,7 @@ CONSTANTS
  MaxFaults = 3
  MaxSeeks = 0
  Conc = 8
- FixLeak = FALSE
+ FixLeak = TRUE
  PrioAsc = TRUE
  Rs = {2}
  Prios = {0}
@@ -17,5 +17,5 @@ CONSTANTS
  Confs <- EqConfs
 INIT MCInit
 NEXT MCNext
-INVARIANTS Ok RetryBound TypeOK
+INVARIANTS Ok RetryBound TypeOK NoThrottleBlock
 CHECK_DEADLOCK FALSE
